@@ -1,4 +1,6 @@
 import PqModel.SortCmp
+import PqModel.SortWriter
+import PqModel.Props.C09
 
 /-! # C10 — Sorting buffers output a correctly ordered permutation
 
@@ -227,9 +229,232 @@ theorem page_keeps_rows {V : Type} {m : Nat} {c : OptCol V} (h : c.Inv m) (k : N
     (Col.opt m (c.page m)).view[k]? = (Col.opt m c).view[k]? := by
   simp only [Col.view]; rw [(OptCol.page_spec h).2.2.1]
 
--- OPEN (outside this slice): the SortingWriter corollary — sorted runs + `MergeRowGroups` yield a sorted
--- permutation, and with `DropDuplicatedRows` one row per key — composes `sort_correct` with the merge /
--- dedupe theorems of C09 (`MergeTree.lean`); here it is covered by the L1 check only.
--- NOT modelled: `repeatedColumnBuffer` (sorting on a repeated leaf) — L1 only.
+/-! ## 7. the repeated column buffer (`column_buffer_repeated.go`) -/
+
+/-- two rows of a list column: [1, 9] and [1, 3] (max definition level 1) -/
+def sampleRep : RepCol Int :=
+  (RepCol.empty.writeRow [(0, 1, some 1), (1, 1, some 9)]).writeRow [(0, 1, some 1), (1, 1, some 3)]
+
+theorem sampleRep_inv : sampleRep.RInv 1 :=
+  (RepCol.view_writeRow (RepCol.view_writeRow (RepCol.RInv.empty 1) (by simp [RowWF])).2 (by simp [RowWF])).2
+
+/-- `writeRow` of a well-formed row keeps the invariant and appends exactly that row -/
+theorem repeated_write {V : Type} {m : Nat} {c : RepCol V} (h : c.RInv m) {row : List (RCell V)} (hw : RowWF m row) :
+    (c.writeRow row).view m = c.view m ++ [row] ∧ (c.writeRow row).RInv m :=
+  RepCol.view_writeRow h hw
+
+example : sampleRep.view 1 = [[(0, 1, some 1), (1, 1, some 9)], [(0, 1, some 1), (1, 1, some 3)]] := by decide
+
+/-- `Swap` exchanges whole rows (all their values and levels) and keeps the invariant -/
+theorem repeated_swap {V : Type} {m : Nat} {c : RepCol V} (h : c.RInv m) (i j : Nat) :
+    (c.swap i j).view m = swapL (c.view m) i j ∧ (c.swap i j).RInv m :=
+  ⟨RepCol.view_swap m c i j, h.swap i j⟩
+
+/-- `Page()` of the repeated buffer: keeps the invariant and the rows held; after swaps, the level
+    arrays and the base column list the rows' levels and values in row order -/
+theorem repeated_page_spec {V : Type} {m : Nat} {c : RepCol V} (h : c.RInv m) :
+    (c.page m).RInv m ∧ (c.page m).view m = c.view m ∧ (c.page m).reordered = false ∧
+    (c.reordered = true →
+      (c.page m).lv = (c.view m).flatten.map (fun x => (x.1, x.2.1)) ∧
+      (c.page m).base = (c.view m).flatten.filterMap (fun x => x.2.2)) :=
+  RepCol.page_spec h
+
+example : ((sampleRep.swap 0 1).page 1).base = [1, 3, 1, 9] ∧ ((sampleRep.swap 0 1).page 1).rows = [(0, 0), (2, 2)] := by decide
+
+/-- `repeatedColumnBuffer.Less(i, j)` (as repaired: every value of the two rows, then the shorter
+    row first) ⇔ the comparator on the two rows' value lists is negative, asc/desc × nulls first/last -/
+theorem repeated_less_agrees {V : Type} (o : VOrd V) (sc : SortCol) {m : Nat} {c : RepCol V} (h : c.RInv m)
+    {i j : Nat} (hi : i < c.rows.length) (hj : j < c.rows.length) :
+    c.less o.lt sc.desc sc.nullsFirst m i j = true ↔ cmpList (cmpCell o.cmp sc) (c.key m i) (c.key m j) < 0 :=
+  RepCol.less_agrees o sc h hi hj
+
+example : sampleRep.less intOrd.lt false false 1 1 0 = true ∧
+    cmpList (cmpCell intOrd.cmp ⟨0, false, false⟩) (sampleRep.key 1 1) (sampleRep.key 1 0) < 0 := by decide
+
+/-- F23 (as found): `Less` re-read the rows' first base value for every position, so `[1, 3] < [1, 9]`
+    was not seen (nor the converse): the rows compared as equal -/
+theorem repeated_less_F23 :
+    sampleRep.lessF23 intOrd.lt false false 1 1 0 = false ∧ sampleRep.lessF23 intOrd.lt false false 1 0 1 = false ∧
+    cmpList (cmpCell intOrd.cmp ⟨0, false, false⟩) (sampleRep.key 1 1) (sampleRep.key 1 0) < 0 := by decide
+
+/-! ## 8. the row comparator on list-valued keys; `RowBuffer` -/
+
+/-- `Schema.Comparator(sorting…)` (every sorting column's values position by position, proper
+    prefix first; asc/desc × nulls first/last) is a total preorder whenever the value order is -/
+theorem comparator_total_preorder {V : Type} (o : VOrd V) (ht : o.Trans) (s : List SortCol) : CmpOk (cmpRowsL o.cmp s) :=
+  cmpRowsL_ok o ht s
+
+/-- on non-repeated sorting columns it is the comparator of `less_agrees` -/
+theorem comparator_singleton {V : Type} (cmp : V → V → Int) (s : List SortCol) (r1 r2 : Nat → Option V) :
+    cmpRowsL cmp s (fun c => [r1 c]) (fun c => [r2 c]) = cmpRows cmp s r1 r2 :=
+  cmpRowsL_singleton cmp s r1 r2
+
+/-- `RowBuffer[T]`: for ANY history of `Swap` calls after which `Less(i+1, i)` holds nowhere, the
+    buffer holds a permutation of the rows written, pairwise ordered by the comparator -/
+theorem rowbuffer_sort_correct {R : Type} (cmp : R → R → Int) (hc : CmpOk cmp) (b0 : RowBuf R) (ops : List (Nat × Nat))
+    (hfin : ∀ i, i + 1 < (b0.run ops).rows.length → (b0.run ops).less cmp (i + 1) i = false) :
+    (b0.run ops).rows.Perm b0.rows ∧ (b0.run ops).rows.Pairwise (fun a b => cmp a b ≤ 0) :=
+  RowBuf.sort_correct cmp hc b0 ops hfin
+
+/-- … in particular with `Schema.Comparator` on rows with list-valued columns -/
+theorem rowbuffer_sort_correct_schema {V : Type} (o : VOrd V) (ht : o.Trans) (s : List SortCol)
+    (b0 : RowBuf (Nat → List (Option V))) (ops : List (Nat × Nat))
+    (hfin : ∀ i, i + 1 < (b0.run ops).rows.length → (b0.run ops).less (cmpRowsL o.cmp s) (i + 1) i = false) :
+    (b0.run ops).rows.Perm b0.rows ∧ (b0.run ops).rows.Pairwise (fun a b => cmpRowsL o.cmp s a b ≤ 0) :=
+  RowBuf.sort_correct _ (cmpRowsL_ok o ht s) b0 ops hfin
+
+example : (∀ i, i + 1 < ((RowBuf.mk [3, 1, 2]).run [(0, 1), (1, 2)]).rows.length →
+      ((RowBuf.mk [3, 1, 2]).run [(0, 1), (1, 2)]).less intOrd.cmp (i + 1) i = false) ∧
+    ((RowBuf.mk [3, 1, 2]).run [(0, 1), (1, 2)]).rows = [1, 2, 3] := by
+  refine ⟨?_, by decide⟩
+  intro i hi
+  have : i = 0 ∨ i = 1 := by
+    have : ((RowBuf.mk [3, 1, 2]).run [(0, 1), (1, 2)]).rows.length = 3 := by decide
+    omega
+  rcases this with rfl | rfl <;> decide
+
+/-! ## 9. the `SortingWriter` composition (sorted runs → C09 merge → duplicate dropping)
+
+Linking hypotheses, all explicit:
+* `hsort`: every run comes out of its buffer as a sorted permutation. For the `SortingWriter` the
+  buffer is a `RowBuffer` sorted by `Schema.Comparator` itself: this is `rowbuffer_sort_correct`
+  (no `less_agrees` needed). When runs are sorted in a column `Buffer`/`GenericBuffer`
+  (`sort_correct`), `less_agrees` / `repeated_less_agrees` are what turn "no `Buffer.Less(i+1, i)`"
+  into "ordered by the comparator".
+* `Ranked cmp rank`: the comparator is represented by integer ranks (the C09 merge model sorts by
+  an `Int` key); such a rank exists for every finite set of rows under a total preorder.
+* the merge is any `IsMerge` of the runs (`merge_output_sorted_perm`); instantiated with the C09
+  row readers for every refill pattern and batch-size sequence (`sorting_writer_correct`). The
+  segment plans of `WriteRowGroup(merged)` are `IsMerge` too by C09 `refined_plan_is_merge`. -/
+
+/-- any correct merge (C09 `IsMerge`) of sorted runs reads back as a sorted permutation of their rows -/
+theorem merge_output_sorted_perm {R : Type} (rank : R → Int) (ss : List (List R)) {out : List PqModel.Merge.Row}
+    (hm : PqModel.Merge.IsMerge (PqModel.Merge.tagInputs (keysOf rank ss)) out) :
+    (untag ss out).Perm ss.flatten ∧ (untag ss out).Pairwise (fun a b => rank a ≤ rank b) :=
+  untag_isMerge rank ss hm
+
+theorem keysOf_sorted {R : Type} {cmp : R → R → Int} {rank : R → Int} (hr : Ranked cmp rank) (ss : List (List R))
+    (hs : ∀ s ∈ ss, s.Pairwise (fun a b => cmp a b ≤ 0)) : ∀ ks ∈ keysOf rank ss, ks.Pairwise (· ≤ ·) := by
+  intro ks hks
+  obtain ⟨s, hs', rfl⟩ := List.mem_map.mp hks
+  rw [List.pairwise_map]
+  exact (hs s hs').imp (fun h => (hr.le_iff _ _).mp h)
+
+/-- **SortingWriter**: for every list of runs (in particular the chunks of `n ≥ 1` rows of any input),
+    every sorter of the runs that yields sorted permutations, every refill pattern of the temporary
+    row groups and every sequence of positive read batch sizes long enough to drain them, the rows
+    written to the output are a permutation of the rows written to the writer, pairwise ordered by
+    the comparator. -/
+theorem sorting_writer_correct {R : Type} (cmp : R → R → Int) (rank : R → Int) (hr : Ranked cmp rank)
+    (sortRun : List R → List R)
+    (hsort : ∀ run, (sortRun run).Perm run ∧ (sortRun run).Pairwise (fun a b => cmp a b ≤ 0))
+    (runs : List (List R)) (refills : List (List Nat)) (batches : List Nat) (hpos : ∀ b ∈ batches, 1 ≤ b)
+    (hlen : (PqModel.Merge.tagInputs (keysOf rank (runs.map sortRun))).flatten.length < batches.length) :
+    let ss := runs.map sortRun
+    let out := untag ss ((PqModel.Merge.Reader.new (PqModel.Merge.tagInputs (keysOf rank ss)) refills).session batches).1.flatten
+    out.Perm runs.flatten ∧ out.Pairwise (fun a b => cmp a b ≤ 0) := by
+  intro ss out
+  have hks := keysOf_sorted hr ss (by
+    intro s hs; obtain ⟨run, _, rfl⟩ := List.mem_map.mp hs; exact (hsort run).2)
+  have hm := PqModel.Props.C09.merge_at_eof (keysOf rank ss) refills batches hks
+    (PqModel.Props.C09.merge_reaches_eof (keysOf rank ss) refills batches hks hpos hlen)
+  obtain ⟨p, q⟩ := untag_isMerge rank ss hm
+  exact ⟨p.trans (perm_flatten_map sortRun (fun l => (hsort l).1) runs), q.imp (fun h => (hr.le_iff _ _).mpr h)⟩
+
+/-- … for the runs the writer really forms: consecutive chunks of `n` rows -/
+theorem sorting_writer_correct_chunks {R : Type} (cmp : R → R → Int) (rank : R → Int) (hr : Ranked cmp rank)
+    (sortRun : List R → List R)
+    (hsort : ∀ run, (sortRun run).Perm run ∧ (sortRun run).Pairwise (fun a b => cmp a b ≤ 0))
+    (rows : List R) (n : Nat) (hn : 1 ≤ n) (refills : List (List Nat)) (batches : List Nat) (hpos : ∀ b ∈ batches, 1 ≤ b)
+    (hlen : (PqModel.Merge.tagInputs (keysOf rank ((chunks n rows.length rows).map sortRun))).flatten.length < batches.length) :
+    let ss := (chunks n rows.length rows).map sortRun
+    let out := untag ss ((PqModel.Merge.Reader.new (PqModel.Merge.tagInputs (keysOf rank ss)) refills).session batches).1.flatten
+    out.Perm rows ∧ out.Pairwise (fun a b => cmp a b ≤ 0) := by
+  intro ss out
+  have := sorting_writer_correct cmp rank hr sortRun hsort (chunks n rows.length rows) refills batches hpos hlen
+  rw [chunks_flatten hn rows.length rows (Nat.le_refl _)] at this
+  exact this
+
+/-- **SortingWriter with `DropDuplicatedRows`**: every run is deduplicated after sorting, the merged
+    stream again: exactly one row per key remains — the output keys are strictly increasing, every
+    output row was written, and every row written has its key in the output. -/
+theorem sorting_writer_dedupe_correct {R : Type} (cmp : R → R → Int) (rank : R → Int) (hr : Ranked cmp rank)
+    (sortRun : List R → List R)
+    (hsort : ∀ run, (sortRun run).Perm run ∧ (sortRun run).Pairwise (fun a b => cmp a b ≤ 0))
+    (runs : List (List R)) (refills : List (List Nat)) (batches : List Nat) (hpos : ∀ b ∈ batches, 1 ≤ b)
+    (hlen : (PqModel.Merge.tagInputs (keysOf rank (runs.map (fun run => dedupRun cmp none (sortRun run))))).flatten.length < batches.length) :
+    let ss := runs.map (fun run => dedupRun cmp none (sortRun run))
+    let out := untag ss (PqModel.Merge.dedupeReader none
+      ((PqModel.Merge.Reader.new (PqModel.Merge.tagInputs (keysOf rank ss)) refills).session batches).1)
+    out.Pairwise (fun a b => cmp a b < 0) ∧ (∀ y ∈ out, y ∈ runs.flatten) ∧ (∀ x ∈ runs.flatten, ∃ y ∈ out, cmp x y = 0) := by
+  intro ss out
+  have hspec : ∀ run, let s := sortRun run
+      (dedupRun cmp none s).Sublist s ∧ (dedupRun cmp none s).Pairwise (fun a b => rank a < rank b) ∧
+      (∀ x ∈ s, ∃ y ∈ dedupRun cmp none s, rank y = rank x) := by
+    intro run s
+    obtain ⟨a, b, _, d⟩ := dedupRun_spec hr s none ((hsort run).2.imp (fun h => (hr.le_iff _ _).mp h)) (by intro la hla; simp at hla)
+    refine ⟨a, b, ?_⟩
+    intro x hx
+    rcases d x hx with h | ⟨la, hla, _⟩
+    · exact h
+    · simp at hla
+  have hks : ∀ ks ∈ keysOf rank ss, ks.Pairwise (· ≤ ·) := by
+    intro ks hks
+    obtain ⟨s, hs', rfl⟩ := List.mem_map.mp hks
+    obtain ⟨run, _, rfl⟩ := List.mem_map.mp hs'
+    rw [List.pairwise_map]
+    exact (hspec run).2.1.imp (fun h => Int.le_of_lt h)
+  obtain ⟨d1, d2, d3⟩ := PqModel.Props.C09.merge_dedupe_one_row_per_key (keysOf rank ss) refills batches hks hpos hlen
+  have hlt : ∀ a b : R, rank a < rank b → cmp a b < 0 := by
+    intro a b h
+    have h1 := hr.le_iff a b
+    have h2 := hr.le_iff b a
+    have h3 := hr.anti a b
+    have : ¬ cmp b a ≤ 0 := fun e => by have := h2.mp e; omega
+    omega
+  refine ⟨?_, ?_, ?_⟩
+  · refine List.Pairwise.filterMap (lookup ss) ?_ (List.Pairwise.and_mem.mp d1)
+    intro a a' ⟨ha, ha', hk⟩ b hb b' hb'
+    obtain ⟨x, hx, ex⟩ := tagInputs_key rank ss a (d2 a ha)
+    obtain ⟨x', hx', ex'⟩ := tagInputs_key rank ss a' (d2 a' ha')
+    rw [hx] at hb; rw [hx'] at hb'
+    simp at hb hb'
+    subst hb; subst hb'
+    exact hlt _ _ (by omega)
+  · intro y hy
+    obtain ⟨r, hr', hl⟩ := List.mem_filterMap.mp hy
+    have hy' : y ∈ ss.flatten := by
+      rw [← tagInputs_lookup rank ss]
+      exact List.mem_filterMap.mpr ⟨r, d2 r hr', hl⟩
+    obtain ⟨s, hs, hys⟩ := List.mem_flatten.mp hy'
+    obtain ⟨run, hrun, rfl⟩ := List.mem_map.mp hs
+    exact List.mem_flatten.mpr ⟨run, hrun, (hsort run).1.mem_iff.mp ((hspec run).1.subset hys)⟩
+  · intro x hx
+    obtain ⟨run, hrun, hxr⟩ := List.mem_flatten.mp hx
+    obtain ⟨y, hy, ey⟩ := (hspec run).2.2 x ((hsort run).1.mem_iff.mpr hxr)
+    have hy' : y ∈ ss.flatten := List.mem_flatten.mpr ⟨_, List.mem_map.mpr ⟨run, hrun, rfl⟩, hy⟩
+    rw [← tagInputs_lookup rank ss] at hy'
+    obtain ⟨r, hr', hl⟩ := List.mem_filterMap.mp hy'
+    obtain ⟨z, hz, ez⟩ := tagInputs_key rank ss r hr'
+    rw [hl] at hz
+    obtain ⟨r2, hr2, ek⟩ := d3 r hr'
+    obtain ⟨z2, hz2, ez2⟩ := tagInputs_key rank ss r2 (d2 r2 hr2)
+    refine ⟨z2, List.mem_filterMap.mpr ⟨r2, hr2, hz2⟩, (hr.eq_iff x z2).mpr ?_⟩
+    have : z = y := by simpa using hz.symm
+    subst this
+    omega
+
+/-- non-vacuity: integer rows ranked by themselves; runs `[3,1] [2,3]`, sorter = model sort -/
+example : Ranked intOrd.cmp (fun x => x) := ⟨by intro a b; simp [intOrd]; omega, intOrd.anti⟩
+
+example : untag [[1, 3], [2, 3]]
+    ((PqModel.Merge.Reader.new (PqModel.Merge.tagInputs (keysOf (fun x => x) [[1, 3], [2, 3]])) []).session [2, 2, 2, 2, 2]).1.flatten
+      = ([1, 2, 3, 3] : List Int) ∧
+    untag [[1, 3], [2, 3]] (PqModel.Merge.dedupeReader none
+      ((PqModel.Merge.Reader.new (PqModel.Merge.tagInputs (keysOf (fun x => x) [[1, 3], [2, 3]])) []).session [2, 2, 2, 2, 2]).1)
+      = ([1, 2, 3] : List Int) := by decide
+
+-- NOT modelled: the typed/reflection ingestion into the buffers (C03), the temporary file encoding
+-- (C01), the computation of the segment cuts of `WriteRowGroup(merged)` from indexes (C09, L2 there).
 
 end PqModel.Props.C10
